@@ -45,9 +45,15 @@ OUTSIDERS = {
     "missing-ref-namesake": ["dep/sub/Missing.1.0.dsdl", "dep/x/y/Missing.1.0.dsdl", "o1/other/Missing.1.0.dsdl"],
     "missing-ref-single-namesake": ["dep/sub/Missing.1.0.dsdl"],
     "missing-ref-other-root": ["o1/other/Missing.1.0.dsdl"],
+    # a self-referential target and a two-element cycle: namesakes of their members in another directory of the same
+    # root-namespace name are outsiders (the self exclusion goes by name and version, not by file)
+    "self-ref-namesake": ["o1/tgt/Loop.1.0.dsdl", "o2/tgt/Ping.1.0.dsdl"],
 }
 _M = {"tgt/M.1.0.dsdl": "dep.Missing.1.0 m\nMissing.1.0 n\n@sealed\n"}
-EXTRA_TARGETS = {"missing-ref-namesake": _M, "missing-ref-single-namesake": _M, "missing-ref-other-root": _M}
+_L = {"tgt/Loop.1.0.dsdl": "uint8 v\ntgt.Loop.1.0[<=1] next\n@sealed\n"}
+_P = {"tgt/Ping.1.0.dsdl": "tgt.Pong.1.0 p\n@sealed\n", "tgt/Pong.1.0.dsdl": "tgt.Ping.1.0 q\n@sealed\n"}
+EXTRA_TARGETS = {"missing-ref-namesake": _M, "missing-ref-single-namesake": _M, "missing-ref-other-root": _M,
+                 "self-ref-namesake": dict(_L, **_P)}
 
 
 class _Tree:
@@ -155,11 +161,18 @@ def conditions(tier: str, seed: int) -> typing.List[Cond]:
                 targets = ["tgt/U.1.0.dsdl"]
             if scenario.startswith("missing-ref") and api == "read_files":
                 targets = ["tgt/M.1.0.dsdl"]
+            if scenario == "self-ref-namesake" and api == "read_files":
+                targets = ["tgt/Loop.1.0.dsdl"]
             out.append(Cond(PROP, "c19.text", make_closure, {"api": api, "scenario": scenario, "targets": targets},
                             {"t0": str, "t1": str}, assumptions=["text of each outsider: any str (unconstrained)"],
                             stubs=["DSDLDefinition.text overridden for outsider paths (returns the symbolic str and "
                                    "records the access)"],
                             witness={"t0": "garbage \x00 @@", "t1": "uint8 x\n@assert false\n"}, budget=300.0))
+    out.append(Cond(PROP, "c19.text", make_closure,
+                    {"api": "read_files", "scenario": "self-ref-namesake", "targets": ["tgt/Ping.1.0.dsdl"]},
+                    {"t0": str, "t1": str}, assumptions=["text of each outsider: any str (unconstrained)"],
+                    stubs=["DSDLDefinition.text overridden for outsider paths"],
+                    witness={"t0": "", "t1": "uint8 x\n@sealed\n"}, budget=300.0))
     out.append(Cond(PROP, "c19.text", make_closure,
                     {"api": "read_files", "scenario": "own-root", "targets": ["tgt/T.1.0.dsdl", "tgt/U.1.0.dsdl"]},
                     {"t0": str, "t1": str}, assumptions=["text of each outsider: any str (unconstrained)"],
